@@ -91,11 +91,22 @@ def enc(o):
     if isinstance(o, pendulum.Duration):
         return enc_duration(o)
     if isinstance(o, _dt.timedelta):
-        return {"k": "td", "r": td3(o), "cls": type(o).__name__}
+        return {"k": "td", "r3": td3(o), "cls": type(o).__name__, "years": 0, "months": 0}
     if isinstance(o, bool):
         return {"k": "bool", "v": o}
     if isinstance(o, int):
-        return {"k": "int", "v": biglimbs(o), "cls": "int"}
+        if abs(o) < 2 ** 31:
+            return {"k": "int", "n": o, "cls": "int"}
+        return {"k": "int", "v": biglimbs(o), "cls": "int", "n": -2 ** 31 + 1}
+    if isinstance(o, float):
+        if o != o or o in (float("inf"), float("-inf")):
+            return {"k": "float", "num": 0, "den": 0}
+        num, den = o.as_integer_ratio()
+        if abs(num) < 2 ** 31 and den < 2 ** 31:
+            return {"k": "float", "num": num, "den": den}
+        return {"k": "float", "num": 2 ** 31 - 1, "den": 2 ** 31 - 1}
+    if isinstance(o, tuple) and len(o) == 2:
+        return {"k": "pair", "q": enc(o[0]), "r": enc(o[1])}
     if isinstance(o, str):
         return {"k": "str", "v": cps(o)}
     if o is None:
@@ -132,6 +143,38 @@ def enc_duration(d):
         r["days"] = dd if abs(dd) < 2 ** 31 else -777777
     except Exception:  # noqa: BLE001
         r["days"] = -777777
+    return r
+
+
+def f2d3(f, unit_us=1000000):
+    """float quantity (in units of unit_us microseconds) -> Dur3 of the nearest microsecond"""
+    from fractions import Fraction
+
+    us = round(Fraction(f) * unit_us)
+    sec, us = divmod(us, 1000000)
+    d, sec = divmod(sec, 86400)
+    return [d, sec, us]
+
+
+def sm(n, base=0):
+    n = int(n)
+    sg = (n > 0) - (n < 0)
+    n = abs(n)
+    return [sg, [n // base, n % base]] if base else [sg, n]
+
+
+def enc_duration_full(d):
+    r = enc_duration(d)
+    r["ts"] = f2d3(d.total_seconds())
+    r["tmi"] = f2d3(d.total_minutes(), 60 * 10 ** 6)
+    r["th"] = f2d3(d.total_hours(), 3600 * 10 ** 6)
+    r["td"] = f2d3(d.total_days(), 86400 * 10 ** 6)
+    r["tw"] = f2d3(d.total_weeks(), 7 * 86400 * 10 ** 6)
+    r["ins"] = sm(d.in_seconds(), 86400)
+    r["inm"] = sm(d.in_minutes(), 1440)
+    r["inh"] = sm(d.in_hours(), 24)
+    r["ind"] = sm(d.in_days())
+    r["inw"] = sm(d.in_weeks())
     return r
 
 
@@ -184,7 +227,12 @@ def dec(v):
         cls = {"Time": pendulum.Time, "time": _dt.time}[v.get("cls", "Time")]
         return cls(*v["w"])
     if k == "td":
-        return _dt.timedelta(*v["r"])
+        return _dt.timedelta(*(v.get("r") or v["r3"]))
+    if k == "dur":
+        a = v["args"]
+        names = {"y": "years", "mo": "months", "w": "weeks", "d": "days", "h": "hours", "mi": "minutes", "s": "seconds",
+                 "ms": "milliseconds", "us": "microseconds"}
+        return pendulum.Duration(**{names[k2]: val for k2, val in a.items() if val})
     raise ValueError("cannot decode %r" % (v,))
 
 
